@@ -1396,6 +1396,10 @@ func (t *fnTrans) loopHead(li *loopInfo) {
 	if t.loopMod[h] == nil {
 		t.loopMod[h] = map[string]bool{}
 	}
+	// snapshot of the state in which the loop is entered (atloop(e) in invariants)
+	for name := range t.vars {
+		t.cur.m[fmt.Sprintf("atloop%d:%s", li.ordinal, name)] = t.get(t.cur, name)
+	}
 	// havoc what the loop body may modify (from the previous pass; fixpoint)
 	mods := t.loopMod[h]
 	all := t.loopModAll[h]
